@@ -168,6 +168,10 @@ EXTRA_SETS = [
                    "{{ [m(a), s, b]|map('string')|join('-') }}{{ [m(a), b]|select('string')|join(s) }}{{ [[s, a]]|map('join')|first }}"
                    "{{ [m(b), a]|map('default', 'd', true)|map('lower')|join }}"},
      lambda g: {"a": g.word(), "b": g.word()}),
+    # a filtered set block whose filter does not return a string: the VALUE (number, list) is used afterwards
+    ({"main.html": "{% set n | int %}4{{ k }}{% endset %}{{ n + 1 }}|{% set l | length %}abc{% endset %}{{ l * 2 }}|{% set f | float %}{{ k }}.5{% endset %}"
+                   "{{ f * 2 }}|{% set w | wordcount %}a b{% endset %}{{ w - 1 }}|{% set q | list %}xy{% endset %}{{ q|length }}{{ a }}"},
+     lambda g: {"a": g.word(), "k": g.r.randint(0, 9)}),
     ({"main.html": "{% include 'inc.html' %}{% set x %}{% include 'inc.html' %}{% endset %}{{ x }}{{ x ~ a }}",
       "inc.html": "{{ a }}{% set y %}{{ a }}{% endset %}{{ y }}"},
      lambda g: {"a": g.word()}),
